@@ -108,8 +108,10 @@ class Ctx:
         self.configs_used = {}
         self.rule = None
         self.counts = {}
+        self.default_config = "native"
 
-    def prog(self, config="native"):
+    def prog(self, config=None):
+        config = config or self.default_config
         if config not in self._progs:
             d, cached, nfiles = facts_dir(config)
             p = Program(d, config)
@@ -119,7 +121,7 @@ class Ctx:
 
     def ob(self, rule, key, ok, where="", msg="", nontrivial=True, detail=None):
         """record one obligation instance; a failed one is a violation keyed by rule:key"""
-        o = {"rule": rule, "key": key, "ok": bool(ok), "where": where, "msg": msg, "nontrivial": nontrivial}
+        o = {"rule": rule, "key": key, "ok": bool(ok), "where": where, "msg": msg, "nontrivial": nontrivial, "config": self.default_config}
         if detail is not None:
             o["detail"] = detail
         self.obligations.append(o)
@@ -157,26 +159,35 @@ def load_known():
     return known, fixed
 
 
-def run_property(pid, tier, rules, explanation, assumptions, design_ref=""):
+def run_property(pid, tier, rules, explanation, assumptions, design_ref="", thorough_configs=None, multi_config_rules=None):
     """rules: list of (rule_id, function(ctx)).  Prints the verdict lines, writes evidence,
     returns the exit code."""
     t0 = time.time()
     seed = int(os.environ.get("VERIF_SEED", "0") or 0)
     ctx = Ctx(pid, tier)
     rule_stats = {}
-    for rid, fn in rules:
-        before = len(ctx.obligations)
-        ctx.rule = rid
-        try:
-            fn(ctx)
-        except FactError as e:
-            ctx.ob(rid, "anchor:" + str(e)[:160], False, "", f"fail closed: {e}")
-        except Exception as e:  # a crashing rule is a broken check, never a pass
-            tb = traceback.format_exc()
-            ctx.ob(rid, "internal-error", False, "", f"rule crashed: {e}\n{tb}")
-        rule_stats[rid] = len(ctx.obligations) - before
-        if rule_stats[rid] == 0:
-            ctx.ob(rid, "vacuous", False, "", "rule produced no obligation (would pass vacuously)")
+    passes = ["native"]
+    if tier == "thorough":
+        passes += list(thorough_configs or [])
+    for cfg in passes:
+        ctx.default_config = cfg
+        for rid, fn in rules:
+            if cfg != "native" and rid in (multi_config_rules or ()):
+                continue  # the rule already iterates over configurations itself
+            before = len(ctx.obligations)
+            ctx.rule = rid
+            try:
+                fn(ctx)
+            except FactError as e:
+                ctx.ob(rid, "anchor:" + str(e)[:160], False, "", f"fail closed: {e}")
+            except Exception as e:  # a crashing rule is a broken check, never a pass
+                tb = traceback.format_exc()
+                ctx.ob(rid, "internal-error", False, "", f"rule crashed: {e}\n{tb}")
+            n = len(ctx.obligations) - before
+            rule_stats[rid] = rule_stats.get(rid, 0) + n
+            if n == 0:
+                ctx.ob(rid, "vacuous", False, "", "rule produced no obligation (would pass vacuously)")
+    ctx.default_config = "native"
     known, fixed = load_known()
     os.makedirs(EVID, exist_ok=True)
     os.makedirs(REPLAY, exist_ok=True)
@@ -198,10 +209,10 @@ def run_property(pid, tier, rules, explanation, assumptions, design_ref=""):
         safe = "".join(c if c.isalnum() or c in "._-" else "_" for c in k)[:120]
         path = os.path.join(REPLAY, f"{pid}-{safe}.json")
         json.dump({"property": pid, "rule": v["rule"], "key": k, "where": v["where"], "message": v["msg"], "detail": v.get("detail"), "rerun": f"./check {pid} {tier}", "repo": REPO}, open(path, "w"), indent=1)
-        print(f"{v['where'] or '-'}: {k}: {v['msg']}")
+        print(f"{v['where'] or '-'}: {k}: {v['msg']}" + (f" [configuration {v.get('config')}]" if v.get("config") not in (None, "native") else ""))
         print(f"VIOLATION property={pid} replay={path}")
     wall = time.time() - t0
-    distinct = len({(o["rule"], o["key"]) for o in ctx.obligations if o["nontrivial"]})
+    distinct = len({(o["rule"], o["key"], o.get("config")) for o in ctx.obligations if o["nontrivial"]})
     samples = []
     per_rule_seen = {}
     for o in ctx.obligations:
